@@ -71,6 +71,34 @@ def tla_val(v):
     raise TypeError(v)
 
 
+class BrokerCrash(Exception):
+    """the in-process broker brought the harness process down (a panic or fatal error in a goroutine of the repository under
+    test that no harness code was calling): real-code behaviour, reported by the owning check as a violation"""
+
+    def __init__(self, headline, frame, trace):
+        Exception.__init__(self, headline)
+        self.headline, self.frame, self.trace = headline, frame, trace
+
+
+def go_crash(path_or_text):
+    """Parse the stderr of a Go harness process for a runtime crash.  Returns None, or (headline, top gmqtt frame, first
+    goroutine block, own) where own = the crashing goroutine has frames of the repository under test and none of the harness."""
+    text = path_or_text
+    if "\n" not in path_or_text and os.path.exists(path_or_text):
+        with open(path_or_text, errors="replace") as fh:
+            text = fh.read()
+    m = re.search(r"^(panic: .*|fatal error: .*)$", text, re.M)
+    if not m:
+        return None
+    rest = text[m.end():]
+    g = re.search(r"^goroutine \d+ .*?:\n(.*?)(?:\n\n|\Z)", rest, re.M | re.S)
+    block = g.group(0) if g else rest[:3000]
+    frames = re.findall(r"^([\w./*()\[\]-]+)\(", block, re.M)
+    own = any("DrmagicE/gmqtt/" in f for f in frames) and not any(f.startswith(("main.", "verifharness/")) for f in frames)
+    top = next((f for f in frames if "DrmagicE/gmqtt/" in f), "?")
+    return m.group(1), top.replace("github.com/DrmagicE/gmqtt/", ""), block[:6000], own
+
+
 class TlcResult:
     def __init__(self):
         self.generated = 0
